@@ -43,12 +43,10 @@ class Result:
         self.lemmas = []
 
 
-def model_stage(res, prop, family, mc_module, strict, want_phase=2, variants_name="variants", timeout=1500):
+def model_stage(res, prop, family, mc_module, strict, want_phase=2, variants_name="variants", timeout=1500, shared=False):
     """TLC enumerates the bounded instance (checking the model-level invariants in the same run), dumps every
     state; each case state is replayed into the real code."""
-    cfg = os.path.join(SPEC, "mc", f"{mc_module}.{TIER}.cfg")
-    if not os.path.exists(cfg):
-        cfg = os.path.join(SPEC, "mc", f"{mc_module}.quick.cfg")
+    cfg = os.path.join(SPEC, "mc", f"{mc_module}.{prop + '.' if shared else ''}{TIER}.cfg")
     dump = os.path.join(scratch(), f"{mc_module}.{os.getpid()}.dump")
     t = Timer()
     r = tlc.run_tlc(os.path.join(SPEC, "mc", mc_module + ".tla"), cfg, dump=dump, timeout=timeout)
@@ -61,7 +59,7 @@ def model_stage(res, prop, family, mc_module, strict, want_phase=2, variants_nam
     os.remove(dump)
     res.evaluations += tot["evals"]
     res.nontrivial += tot["nontrivial"]
-    res.traces += tot["cases"]
+    res.traces += tot["cases"] - tot["unspec"]
     res.unspec += tot["unspec"]
     res.extra.setdefault("replay", []).append(dict(tot, wall_s=t2.s(), module=mc_module))
     for b in bad:
